@@ -293,6 +293,12 @@ def gen_plan(rng, family):
                 seq.append(["pause"])
         plan["threads"] = [seq]
         plan["final"] = "await+submit+shutdown"
+    elif family == "excs":                      # C04: exceptions that are not type(e)(*e.args): several constructor arguments, state outside args
+        for _ in range(n + 1):
+            main.append(["submit", rng.choice(["raise_json", "raise_stateful", "raise_oserror", "raise", "value", "value", "sysexit"])])
+        if rng.random() < 0.4:
+            plan["threads"].append([["submit", rng.choice(["raise_json", "value"])] for _ in range(rng.randint(1, 2))])
+        plan["final"] = "await+submit+shutdown"
     elif family == "saturate":                  # C08 delivered
         plan["workers"] = rng.choice([1, 2, 3])
         plan["timeout"] = rng.choice([None, 0.05, 0.05])
@@ -758,7 +764,7 @@ def analyze(plan, r):
         hang_props.append("C06")
     if fam in ("plain", "full", "timeout", "saturate", "spawnfail") and not kills:
         hang_props += ["C04", "C03", "C08"]
-    if fam == "callback":
+    if fam in ("callback", "excs"):
         hang_props += ["C04"]
     if fam == "race":
         hang_props += ["C09"]
